@@ -228,8 +228,8 @@ class Sim(object):
                 raise _Result()
             elif op == "mk":
                 self.defs[st["task"]["id"]] = st["task"]
-            elif op == "sync":
-                raise NotImplementedError("the round simulator covers yield-only programs")
+            elif op in ("sync", "cancel", "reyield"):
+                raise NotImplementedError("the round simulator does not model %r statements" % (op,))
             else:
                 raise AssertionError(op)
 
